@@ -306,6 +306,12 @@ func (x *Explorer) step(st *State) {
 		f.pc++
 	case *ssa.SliceToArrayPointer:
 		s := x.val(st, f, i.X).(VSlice)
+		// the conversion panics when the slice is shorter than the array
+		if pt, ok := i.Type().Underlying().(*types.Pointer); ok {
+			if at, ok := pt.Elem().Underlying().(*types.Array); ok && at.Len() > 0 {
+				x.check(st, "slice-to-array", Ge(s.Len, IntLit(at.Len())), i)
+			}
+		}
 		f.env[i] = VPtr{Ref: s.Arr, Root: types.NewSlice(s.Elem), Path: nil}
 		st.note("slice-to-array-pointer")
 		f.pc++
@@ -543,6 +549,14 @@ func (x *Explorer) unop(st *State, f *Frame, i *ssa.UnOp) Val {
 			x.fail("deref of %T", v)
 		}
 		x.nilCheck(st, p, i)
+		if s2a, ok := i.X.(*ssa.SliceToArrayPointer); ok {
+			// [N]T(s): the value of the first N elements of s (the length was checked at the conversion)
+			if sv, ok := x.val(st, f, s2a.X).(VSlice); ok {
+				if at, ok := i.Type().Underlying().(*types.Array); ok {
+					return x.arrayOfSlice(st, sv, at)
+				}
+			}
+		}
 		r := st.load(p)
 		if g, ok := i.X.(*ssa.Global); ok {
 			r = x.globalLoad(st, g, r)
@@ -565,6 +579,31 @@ func (x *Explorer) unop(st *State, f *Frame, i *ssa.UnOp) Val {
 	}
 	x.fail("unop %s", i.Op)
 	return nil
+}
+
+// arrayOfSlice: the array value [N]T(s) - a row that agrees with s on its first N elements.
+func (x *Explorer) arrayOfSlice(st *State, sv VSlice, at *types.Array) Val {
+	names, sorts := x.elemHeaps(st, sv.Elem)
+	if len(names) != 1 {
+		return x.freshResult(st, at, "s2a")
+	}
+	arr := st.heapGet(names[0], ArrSort(ArrSort(sorts[0])))
+	row := Select(arr, sv.Arr)
+	nrow := st.freshSym("s2a_row", ArrSort(sorts[0]))
+	n := at.Len()
+	if n <= 64 {
+		for k := int64(0); k < n; k++ {
+			st.addFact(Eq(Select(nrow, IntLit(k)), Select(row, Add(sv.Off, IntLit(k)))))
+		}
+	} else {
+		k := Sym(fmt.Sprintf("s2ak!%d", x.fresh), SInt)
+		x.fresh++
+		st.assume(Forall([]*Term{k}, Implies(And(Ge(k, IntLit(0)), Lt(k, IntLit(n))), Eq(Select(nrow, k), Select(row, Add(sv.Off, k))))))
+	}
+	if isByteSlice(types.NewSlice(sv.Elem)) {
+		st.addFact(Eq(UF("bval", SInt, nrow, IntLit(0), IntLit(n)), UF("bval", SInt, row, sv.Off, IntLit(n))))
+	}
+	return VArray{T: at, L: []*Term{nrow}}
 }
 
 // globalLoad gives package-level error sentinels a fixed, non-nil identity.
